@@ -16,14 +16,27 @@ export MIRIFLAGS="-Zmiri-disable-isolation"
 unset CARGO_TARGET_DIR
 BIN="$VERIF_DIR/target/native/release/vsim"
 LOGS="$VERIF_DIR/target/miri-logs"
+# a replay file given relative to the caller's directory
+REPLAY_FILE=""
+if [ "${1:-}" = "replay" ]; then
+  case "${2:-}" in /*) REPLAY_FILE="$2";; *) REPLAY_FILE="$OLDPWD/$2"; [ -f "$REPLAY_FILE" ] || REPLAY_FILE="$VERIF_DIR/$2";; esac
+  [ -f "$REPLAY_FILE" ] || { echo "HARNESS-ERROR: no such replay file: ${2:-}"; exit 2; }
+fi
 cd "$VERIF_DIR/sim-miri"
 
 if [ "${1:-}" = "replay" ]; then
-  cargo +nightly miri run --quiet --manifest-path ../sim/Cargo.toml -- miri-replay "$2"
+  mkdir -p "$LOGS"
+  cargo +nightly miri run --quiet --manifest-path ../sim/Cargo.toml -- miri-replay "$REPLAY_FILE" >"$LOGS/replay.out" 2>"$LOGS/replay.err"
   rc=$?
-  [ $rc -eq 0 ] && exit 0
-  echo "VIOLATION property=C19 replay=$2"
-  exit 1
+  cat "$LOGS/replay.out"
+  if [ $rc -eq 0 ]; then echo "miri replay: clean on this tree"; exit 0; fi
+  if grep -q "VIOLATION-CANDIDATE" "$LOGS/replay.out" || grep -q "Undefined Behavior\|error: .*deadlock\|Data race" "$LOGS/replay.err"; then
+    grep -m1 -A6 "Undefined Behavior\|deadlock\|Data race" "$LOGS/replay.err" | cut -c1-300
+    echo "VIOLATION property=C19 replay=$2"
+    exit 1
+  fi
+  echo "HARNESS-ERROR: the Miri replay failed without a verdict (see $LOGS/replay.err)"; tail -5 "$LOGS/replay.err"
+  exit 2
 fi
 
 TIER="${1:-quick}"; SEED="${2:-1}"; export VSIM_TIER="$TIER"
